@@ -36,6 +36,7 @@ var commands = map[string]func([]string){
 	"plant":      cmdPlant,
 	"gtldgen":    cmdGtldGen,
 	"validity":   cmdValidity,
+	"cfgdoc":     cmdCfgDoc,
 }
 
 func main() {
